@@ -224,7 +224,7 @@ pub struct Ctx {
     pub ranges: Vec<Range>,
     pub cfg: HookCfg,
     /// guest bytes the operation in progress is allowed to touch: (range id, lo, hi)
-    pub allowed: Option<(u32, usize, usize)>,
+    pub allowed: Vec<(u32, usize, usize)>,
     /// set by hooks when a touch lands outside `allowed`
     pub stray: Option<String>,
     pub sys: crate::sys::SysModel,
@@ -277,7 +277,7 @@ impl Ctx {
             sched: Sched::default(),
             ranges: Vec::new(),
             cfg: HookCfg::default(),
-            allowed: None,
+            allowed: Vec::new(),
             stray: None,
             sys: Default::default(),
             seam_events: 0,
@@ -373,20 +373,17 @@ impl Ctx {
     }
 
     fn check_allowed(&mut self, addr: usize, len: usize, what: &'static str) {
-        if let Some((id, lo, hi)) = self.allowed {
-            if len == 0 {
-                return;
-            }
-            if let Some((rid, off, true)) = self.classify(addr) {
-                // one-sided: only bytes that are certainly guest RAM of a registered range
-                if rid != id || off < lo || off + len > hi {
-                    if self.stray.is_none() {
-                        self.stray = Some(format!(
-                            "{} of {} byte(s) at range {} offset {} outside the accessor's bytes [{}..{}) of range {}",
-                            what, len, rid, off, lo, hi, id
-                        ));
-                    }
-                }
+        if self.allowed.is_empty() || len == 0 {
+            return;
+        }
+        if let Some((rid, off, true)) = self.classify(addr) {
+            // one-sided: only bytes that are certainly guest RAM of a registered range
+            let ok = self.allowed.iter().any(|&(id, lo, hi)| rid == id && off >= lo && off + len <= hi);
+            if !ok && self.stray.is_none() {
+                self.stray = Some(format!(
+                    "{} of {} byte(s) at range {} offset {} outside the bytes the accessor names {:?}",
+                    what, len, rid, off, self.allowed
+                ));
             }
         }
     }
@@ -456,12 +453,12 @@ pub fn yield_point() {
     let nxt = c.pick_next(false).unwrap_or(cur);
     if nxt != cur {
         c.sched.switches += 1;
-        if c.allowed.is_some() || c.in_op() {
+        if c.in_op() {
             c.sched.inop_switches += 1;
         }
         c.sched.next = nxt;
         let y = c.sched.yielders[cur];
-        let saved_allowed = c.allowed.take();
+        let saved_allowed = std::mem::take(&mut c.allowed);
         let saved_actor = c.actor;
         // SAFETY: the yielder belongs to the coroutine we are running on.
         unsafe { (*y).suspend(()) };
@@ -795,6 +792,7 @@ impl SimHooks for Hooks {
             c.mmu_check(src as usize, len, "slice-to-slice copy (source)");
         }
         c.check_allowed(dst as usize, len, "copy write");
+        c.check_allowed(src as usize, len, "copy read");
         let (nd, ns) = (c.norm(dst as usize), c.norm(src as usize));
         c.ev(EvKind::Copy, nd, ns, len as u64);
     }
